@@ -34,6 +34,7 @@ MANIFEST_TEXT = ("Schema 2.x: every setter of track_impl is proved to be the len
                  "stay removed and refuse every call; tied by generated histories over 3 tracks (every setter, slot "
                  "setters at -1..9) with all getters, snapshot() of all tracks and the raw row after each step, and "
                  "the lens Spec evaluated on the real library's previous answers.")
+MANIFEST_TEXT = MANIFEST_TEXT + " " + CV.MANIFEST_SENTENCE
 TRUSTED_EXTRA = [CV.TRUSTED]
 
 GETTERS = ["album", "artist", "average_loudness", "beatgrid", "bitrate", "bpm", "comment", "composer", "duration",
